@@ -12,6 +12,8 @@ Record case17 := {
   dbg   : bool;                          (* the engine under test runs in debug mode *)
   hist  : list call;                     (* the calls the engine under test received before the judged one
                                             (CLoad f = LoadTemplates(f), directly or through the DebugController) *)
+  gone  : bool;                          (* the context of the judged call was ended by the harness (cancelled / deadline)
+                                            before the call or while it was running *)
 }.
 
 Definition render_of (c : case17) (n : bytes) : option bytes :=
@@ -34,7 +36,7 @@ Definition res_eqb (r r' : option (list (bytes * bytes))) : bool :=
    iff the literal name T.partial/p is a file of the tree (plain set membership, nothing is
    resolved); its content alone is what Render gave for that name on a reference engine in a
    process of its own that did nothing else. *)
-Definition oracle17 (c : case17) : bool :=
+Definition oracle_live (c : case17) : bool :=
   let r := render_of c in
   if forallb (fun p => partial_exists (files c) (tname c) p &&
                        match r (partial_name (tname c) p) with Some _ => true | None => false end) (req c)
@@ -46,11 +48,23 @@ Definition oracle17 (c : case17) : bool :=
        end
   else match go c with None => go_nil_on_err c | Some _ => false end.
 
+(* A request whose context ends may be refused at whatever point the engine notices it: then the
+   call reports an error and hands out NO content (nil map).  If it does answer without error, the
+   answer is judged exactly like that of a live request: every requested key, each with the content
+   the partial has alone - never fewer keys. *)
+Definition refused (c : case17) : bool :=
+  match go c with None => go_nil_on_err c | Some _ => false end.
+
+Definition oracle17 (c : case17) : bool :=
+  oracle_live c || (gone c && refused c).
+
 (* M: the loop of RenderPartials over the engine with its template set as state: the history
    of the engine under test (loads, filtered loads, renders, partial requests) from a fresh
    engine, then the judged request; a template that is found gives the content the reference
    gave for that name.  By C17_every_history / C17_debug_engine this is the pure loop over the
-   exact lookup in the tree on every case. *)
+   exact lookup in the tree on every case.  For a request whose context ends, the model is the
+   set {that result, error}: where Engine.Render looks at the context (its select at the rate
+   limiter) both branches can be ready, and Go picks one at random. *)
 Definition eng17 (c : case17) := render_eng (files c) (render_of c) (dbg c).
 
 Definition model17 (c : case17) : option (list (bytes * bytes)) :=
@@ -66,4 +80,5 @@ Definition state17 (c : case17) : tset := after tset (eng17 c) (load (files c)) 
 
 (* every history is in the domain (a filtered load as the first call included, since dd313c0) *)
 Definition judge (c : case17) : nat :=
-  verdict true (oracle17 c) (res_eqb (model17 c) (go c)).
+  verdict true (oracle17 c)
+    (res_eqb (model17 c) (go c) || (gone c && match go c with None => true | Some _ => false end)).
